@@ -23,12 +23,19 @@ func init() {
 		for _, buf := range []uint32{3000, 4096, 6000} {
 			for _, il := range []bool{false, true} {
 				for _, probeSid := range []int{1, 2} {
-					for _, msgLen := range []int{700, 1000} {
+					for _, msgLen := range []int{700, 1000, -700} {
+						// msgLen < 0: the receiving application has closed ITS direction of stream 1 (Stream.Close resets
+						// the outgoing side only): the stream stays registered and readable, the peer keeps sending on it,
+						// and what is held there counts against the window like anything else
+						halfClosed := msgLen < 0
+						if halfClosed {
+							msgLen = -msgLen
+						}
 						k++
 						if k%nshards != shard {
 							continue
 						}
-						label := fmt.Sprintf("zwdir-b%d-il%v-p%d-m%d#%d", buf, il, probeSid, msgLen, k)
+						label := fmt.Sprintf("zwdir-b%d-il%v-p%d-m%d-h%v#%d", buf, il, probeSid, msgLen, halfClosed, k)
 						vfBubble(t, label, func() {
 							w := vfNewWorld(vfWorldOpt{Label: label, Trace: tr, A: vfEpCfg{InitTSN: uint32(k * 1000), Tag: 0xAE, IL: il}, B: vfEpCfg{InitTSN: 5, Tag: 0xBE, IL: il, Server: true, Buf: buf}})
 							if !w.vfConnect() {
@@ -37,6 +44,18 @@ func init() {
 							}
 							w.open(0, 1, 51)
 							w.open(0, 2, 51)
+							if halfClosed {
+								w.write(0, 1, 50, 51)
+								for i := 0; i < 5 && w.pump(8) > 0; i++ {
+								}
+								w.accept(1)
+								w.read(1, 1, 1<<16)
+								w.closeStream(1, 1)
+								for i := 0; i < 10 && w.pump(8) > 0; i++ {
+								}
+								w.sleep(250 * time.Millisecond)
+								w.pump(8)
+							}
 							// fill the peer's buffer with complete messages on stream 1 that nobody reads, one at a time,
 							// until its window credit is zero (nothing else is left in the sender's queue then)
 							for i := 0; i < 40; i++ {
